@@ -95,17 +95,36 @@ let show_res show = function
 let rec int_of_pos = function XH -> 1 | XO p -> 2 * int_of_pos p | XI p -> 2 * int_of_pos p + 1
 let int_of_n = function N0 -> 0 | Npos p -> int_of_pos p
 
+let mobs_of = function
+  | L [A "ok"; b] -> MOk (bool_ b)
+  | L [A "err"] -> MErr
+  | L [A "panic"] -> MPanic
+  | _ -> raise (Parse_error "obs")
+let fobs_of = function
+  | L [A "ok"; L idx; u] -> FOk (List.map (fun x -> n_of_int (int_ x)) idx, bool_ u)
+  | L [A "err"] -> FErr
+  | L [A "panic"] -> FPanic
+  | _ -> raise (Parse_error "obs")
+let obj_rset_ok f o = match o.o_data with Some c -> rset_ok f c | None -> true
+let rec take n l = if n <= 0 then [] else match l with [] -> [] | x :: r -> x :: take (n - 1) r
+
 let () =
   run_file Sys.argv.(1) (fun _ sx ->
     match sx with
-    | [L [A "match"; f; _obj]; L [A "trees"; tree]; obs] ->
+    (* the call changed the query or an object it was given: the harness compares its arguments
+       with copies taken before the call *)
+    | [L (A kind :: _); _; L [A "modified"; A what]] ->
+      bump ("kind_" ^ kind); bump "obs_modified_argument";
+      verdict ~agree:false ~spec:false ~kf:"-" ~detail:("the call modified its argument: " ^ what)
+    | [L (A kind :: _); _; L [A "crash"]] ->
+      bump ("kind_" ^ kind); bump "obs_process_died";
+      verdict ~agree:false ~spec:false ~kf:"-"
+        ~detail:"the process died in the call: a panic outside the calling goroutine, which no caller can recover"
+    | [L (A "match" :: f :: _obj :: zone); L [A "trees"; tree]; obs] ->
+      if zone <> [] then bump "bounds_in_another_zone";
       let f = cf_of f in
       let o = { o_tag = N0; o_data = data_of tree } in
-      let ob = match obs with
-        | L [A "ok"; b] -> MOk (bool_ b)
-        | L [A "err"] -> MErr
-        | L [A "panic"] -> MPanic
-        | _ -> raise (Parse_error "obs") in
+      let ob = mobs_of obs in
       bump "kind_match";
       bump (match ob with MOk true -> "obs_true" | MOk false -> "obs_false" | MErr -> "obs_err" | MPanic -> "obs_panic");
       bump (Printf.sprintf "filter_nodes_%d" (min 9 (cf_size f)));
@@ -131,14 +150,15 @@ let () =
     | [L [A "filter"; q; _objs]; L (A "trees" :: trees); obs] ->
       let q = (match q with A "nil" -> None | x -> Some (cf_of x)) in
       let os = List.mapi (fun i t -> { o_tag = n_of_int i; o_data = data_of t }) trees in
-      let ob = match obs with
-        | L [A "ok"; L idx; u] -> FOk (List.map (fun x -> n_of_int (int_ x)) idx, bool_ u)
-        | L [A "err"] -> FErr
-        | L [A "panic"] -> FPanic
-        | _ -> raise (Parse_error "obs") in
+      let ob = fobs_of obs in
       bump "kind_filter";
       bump (match q with None -> "filter_nil_query" | Some _ -> "filter_with_query");
-      bump (Printf.sprintf "filter_objects_%d" (min 9 (List.length os)));
+      bump (let n = List.length os in
+            if n < 10 then Printf.sprintf "filter_objects_%d" n
+            else if n < 127 then "filter_objects_10_to_126"
+            else if n <= 129 then "filter_objects_127_to_129"
+            else if n <= 257 then "filter_objects_130_to_257"
+            else "filter_objects_258_and_more");
       bump (match ob with FOk _ -> "fobs_ok" | FErr -> "fobs_err" | FPanic -> "fobs_panic");
       if List.length os >= 2 then note_nontrivial (show (List.hd sx));
       let agree = filter_agrees q os ob and spec = filter_spec_ok q os ob in
@@ -148,4 +168,28 @@ let () =
       verdict ~agree ~spec ~kf:"-"
         ~detail:(Printf.sprintf "model=%s"
                    (show_res (fun l -> String.concat "," (List.map (fun o -> string_of_int (int_of_n o.o_tag)) l)) (filter_objs q os)))
+    (* a sequence of calls on ONE query value and ONE slice of objects: every step is judged on its
+       own inputs by the same extracted verdict functions; the three flags are the harness's own
+       comparisons (result of step 1 kept, concurrent calls answered the same, arguments unchanged) *)
+    | [L [A "seq"; q; _objs]; L (A "trees" :: trees); L [A "steps"; o1; L ms; o2; o3; kept; same; args]] ->
+      let f = cf_of q in
+      let os = List.mapi (fun i t -> { o_tag = n_of_int i; o_data = data_of t }) trees in
+      bump "kind_seq";
+      bump (Printf.sprintf "seq_objects_%d" (min 9 (List.length os)));
+      note_nontrivial (show (List.hd sx));
+      let half = take (List.length os / 2) os in
+      let fstep osx o = let ob = fobs_of o in
+        (filter_agrees (Some f) osx ob && List.for_all (obj_rset_ok f) osx, filter_spec_ok (Some f) osx ob) in
+      let mstep o m = let ob = mobs_of m in
+        (match_agrees f o ob && obj_rset_ok f o, match_spec_ok f o ob) in
+      if List.length ms <> List.length os then raise (Parse_error "seq: match steps");
+      let steps = [("filter", fstep os o1)] @ List.map2 (fun o m -> ("match", mstep o m)) os ms
+                  @ [("filter-half", fstep half o2); ("filter-again", fstep os o3)] in
+      let flags = [("result-kept", bool_ kept); ("concurrent-same", bool_ same); ("arguments-unchanged", bool_ args)] in
+      List.iter (fun (n, b) -> if not b then bump ("seq_flag_false_" ^ n)) flags;
+      let agree = List.for_all (fun (_, (a, _)) -> a) steps && List.for_all snd flags
+      and spec = List.for_all (fun (_, (_, s)) -> s) steps && List.for_all snd flags in
+      let failing = List.filter_map (fun (n, (a, s)) -> if a && s then None else Some n) steps
+                    @ List.filter_map (fun (n, b) -> if b then None else Some n) flags in
+      verdict ~agree ~spec ~kf:"-" ~detail:("steps off: " ^ String.concat "," failing)
     | _ -> raise (Parse_error "line"))
